@@ -408,7 +408,7 @@ func c12R6(c *Ctx, fns []*ssa.Function) {
 		return
 	}
 	flow := c11NewFlow(c, roles, fns)
-	permIdx := map[string]int{"os.MkdirAll": 1, "os.Mkdir": 1, "os.OpenFile": 2}
+	permIdx := map[string]int{"os.MkdirAll": 1, "os.Mkdir": 1, "os.OpenFile": 2, "os.Create": -1} // os.Create: fixed 0666, no way to carry the header mode
 	count := map[string]int{}
 	for _, s := range Inventory(fns, func(n string) bool { _, ok := permIdx[n]; return ok }) {
 		if s.Callee == "os.OpenFile" {
@@ -431,7 +431,7 @@ func c12R6(c *Ctx, fns []*ssa.Function) {
 			key += "#" + string(rune('0'+count[key]))
 		}
 		c12R7Site(c, fns, key, s)
-		ok := c12ModeFromHeader(s.Call.Common().Args[permIdx[s.Callee]], fns, 0, map[ssa.Value]bool{})
+		ok := permIdx[s.Callee] >= 0 && c12ModeFromHeader(s.Call.Common().Args[permIdx[s.Callee]], fns, 0, map[ssa.Value]bool{})
 		c.Check(R6, key, s.Call.Pos(), ok, ifelse(ok, "the mode of the created entry derives from the tar header [in "+FnName(s.Fn)+"]",
 			s.Callee+" [in "+FnName(s.Fn)+"] creates an archive entry with a mode that does not come from the entry's tar header (a constant, or a value also used for non-archive paths): "+
 				"directory / file modes of the packed tree are lost on unpack unless PreservePermissions is set"))
@@ -2863,6 +2863,10 @@ var c12Mutants = []Mutant{
 	{Name: "file-entry-mode-constant", File: "content/file/utils.go",
 		Old: "\t\t\terr = writeFile(filePath, tr, header.FileInfo().Mode(), buf)", New: "\t\t\terr = writeFile(filePath, tr, 0666, buf)",
 		Expect: "C12.R6.entry-mode-from-header|archive-entry|os.OpenFile"},
+	{Name: "empty-files-created-with-os-create", File: "content/file/utils.go",
+		Old:    "\t\t\terr = writeFile(filePath, tr, header.FileInfo().Mode(), buf)",
+		New:    "\t\t\tif header.Size == 0 {\n\t\t\t\tvar f *os.File\n\t\t\t\tif f, err = os.Create(filePath); err == nil {\n\t\t\t\t\terr = f.Close()\n\t\t\t\t}\n\t\t\t} else {\n\t\t\t\terr = writeFile(filePath, tr, header.FileInfo().Mode(), buf)\n\t\t\t}",
+		Expect: "C12.R6.entry-mode-from-header|archive-entry|os.Create"},
 	// R7
 	{Name: "preserved-mode-only-for-files", File: "content/file/utils.go",
 		Old: "\t\tif preservePermissions && (header.Typeflag == tar.TypeReg || header.Typeflag == tar.TypeDir) {", New: "\t\tif preservePermissions && header.Typeflag == tar.TypeReg {",
